@@ -367,6 +367,14 @@ func init() {
 		"internal/bytealg.Equal": func(fr *frame, a []value) value {
 			return fr.i.boxBool(fr.i.strEq(mkString(a[0].([]value)), mkString(a[1].([]value))))
 		},
+		"internal/bytealg.Compare": func(fr *frame, a []value) value {
+			x, ok1 := mkString(a[0].([]value)).(string)
+			y, ok2 := mkString(a[1].([]value)).(string)
+			if !ok1 || !ok2 {
+				fr.i.unsupported("bytes.Compare on symbolic bytes")
+			}
+			return strings.Compare(x, y)
+		},
 		"bytes.Equal": func(fr *frame, a []value) value {
 			return fr.i.boxBool(fr.i.strEq(mkString(a[0].([]value)), mkString(a[1].([]value))))
 		},
@@ -439,6 +447,38 @@ func init() {
 		"fmt.Fprint":   func(fr *frame, a []value) value { return tuple{0, iface{}} },
 		"fmt.Println":  func(fr *frame, a []value) value { return tuple{0, iface{}} },
 		"fmt.Printf":   func(fr *frame, a []value) value { return tuple{0, iface{}} },
+
+		// iter.Pull runs on runtime coroutines; finite, side-effect-free sequences
+		// (maps.Keys, slices.Values) are drained eagerly instead
+		"iter.Pull": func(fr *frame, a []value) value {
+			i := fr.i
+			var items []value
+			yield := &nativeFunc{name: "iter.Pull.yield", f: func(i *interpreter, fr *frame, args []value) value {
+				if len(items) > 100000 {
+					i.unsupported("iter.Pull over a sequence with more than 100000 elements")
+				}
+				items = append(items, args[0])
+				return true
+			}}
+			call(i, fr, token.NoPos, a[0], []value{yield})
+			fn := fr.fn
+			resT := fn.Signature.Results().At(0).Type().(*types.Signature).Results().At(0).Type()
+			pos := 0
+			stopped := false
+			next := &nativeFunc{name: "iter.Pull.next", f: func(i *interpreter, fr *frame, args []value) value {
+				if stopped || pos >= len(items) {
+					return tuple{zero(resT), false}
+				}
+				v := items[pos]
+				pos++
+				return tuple{v, true}
+			}}
+			stop := &nativeFunc{name: "iter.Pull.stop", f: func(i *interpreter, fr *frame, args []value) value {
+				stopped = true
+				return nil
+			}}
+			return tuple{next, stop}
+		},
 
 		// ---- uuid ----------------------------------------------------
 		"github.com/gofrs/uuid.NewV5": extUUIDNewV5,
